@@ -862,6 +862,132 @@ func c15(r *core.Run) {
 			}
 		}
 	})
+
+	r.Check("D4/K8/reload-closure-own-key", "each goroutine started by reload is bound to its own key: a closure handed to an asynchronous runner inside a loop captures a variable allocated per iteration, never the shared loop variable (this module is built with the per-loop semantics of go 1.19)", func(o *core.O) {
+		isAsync := func(in ssa.Instruction) bool {
+			if _, ok := in.(*ssa.Go); ok {
+				return true
+			}
+			c := core.AsCall(in)
+			if c == nil {
+				return false
+			}
+			n := core.Short(core.CalleeName(c))
+			return n == "(*lib/threading.RoutineGroup).Run" || n == "(*lib/threading.RoutineGroup).RunSafe" || n == "lib/threading.GoSafe"
+		}
+		n := 0
+		for _, f := range p.PkgFuncs("lib/discov/internal") {
+			for _, in := range core.Instrs(f, isAsync) {
+				c := in.(ssa.CallInstruction)
+				var mcs []*ssa.MakeClosure
+				if mc, ok := c.Common().Value.(*ssa.MakeClosure); ok {
+					mcs = append(mcs, mc)
+				}
+				for _, a := range c.Common().Args {
+					if mc, ok := a.(*ssa.MakeClosure); ok {
+						mcs = append(mcs, mc)
+					}
+				}
+				for _, mc := range mcs {
+					// only closures created inside a cycle matter
+					if _, inLoop := core.Reach(core.Q{From: []core.At{core.After(mc)}, Target: core.Is(mc)}); !inLoop {
+						continue
+					}
+					n++
+					r.Fn(core.FuncName(f))
+					for _, b := range mc.Bindings {
+						al, ok := b.(*ssa.Alloc)
+						if !ok {
+							continue
+						}
+						// an allocation outside the cycle that is written inside it is shared by all iterations
+						if _, perIter := core.Reach(core.Q{From: []core.At{core.After(al)}, Target: core.Is(al)}); perIter {
+							continue
+						}
+						written := false
+						for _, rf := range *al.Referrers() {
+							if st, ok := rf.(*ssa.Store); ok && st.Addr == al {
+								if _, again := core.Reach(core.Q{From: []core.At{core.After(st)}, Target: core.Is(st)}); again {
+									written = true
+								}
+							}
+						}
+						if written {
+							o.Fail(p.InstrPos(mc), "%s starts goroutines in a loop that all capture the loop variable %q: after a reconnect every one of them works on the last key, the other keys are never re-loaded or re-watched", core.FuncName(f), al.Comment)
+						}
+					}
+				}
+			}
+		}
+		o.Site(n)
+	})
+
+	r.Check("D3/K3/append-to-current-list", "the subscriber container appends a key to the value's current key list: the list is read after the exclusive-mode removals (a list read before them brings removed keys back without a mapping entry)", func(o *core.O) {
+		n := 0
+		for _, f := range p.PkgFuncs("lib/discov") {
+			for _, in := range core.Instrs(f, core.IsMapUpdateOn("container.values")) {
+				mu := in.(*ssa.MapUpdate)
+				ap, ok := mu.Value.(*ssa.Call)
+				if !ok {
+					continue
+				}
+				if b, ok := ap.Call.Value.(*ssa.Builtin); !ok || b.Name() != "append" {
+					continue
+				}
+				n++
+				r.Fn(core.FuncName(f))
+				base, ok := core.Forward(ap.Call.Args[0]).(*ssa.Lookup)
+				if !ok || !core.IsFieldLoad(base.X, "container.values") {
+					// appending to a fresh slice is fine; anything else is not the current list
+					if _, isConst := ap.Call.Args[0].(*ssa.Const); isConst {
+						continue
+					}
+					o.Fail(p.InstrPos(in), "%s appends to %s, not to the value's current key list", core.FuncName(f), core.Describe(ap.Call.Args[0]))
+					continue
+				}
+				if core.Describe(base.Index) != core.Describe(mu.Key) {
+					o.Fail(p.InstrPos(in), "%s appends the key to the list of another value", core.FuncName(f))
+				}
+				mutates := func(x ssa.Instruction) bool {
+					if x == in {
+						return false
+					}
+					if core.IsMapUpdateOn("container.values")(x) {
+						return true
+					}
+					if c, ok := x.(*ssa.Call); ok {
+						if b, ok := c.Call.Value.(*ssa.Builtin); ok && b.Name() == "delete" && core.IsFieldLoad(c.Call.Args[0], "container.values") {
+							return true
+						}
+						if callee := c.Call.StaticCallee(); callee != nil && callee != f {
+							for _, g := range core.WithAnon(callee) {
+								if len(core.Instrs(g, core.IsMapUpdateOn("container.values"))) > 0 {
+									return true
+								}
+								for _, y := range core.Instrs(g, func(y ssa.Instruction) bool {
+									cc, ok := y.(*ssa.Call)
+									if !ok {
+										return false
+									}
+									b, ok := cc.Call.Value.(*ssa.Builtin)
+									return ok && b.Name() == "delete" && core.IsFieldLoad(cc.Call.Args[0], "container.values")
+								}) {
+									_ = y
+									return true
+								}
+							}
+						}
+					}
+					return false
+				}
+				if w, ok := core.Reach(core.Q{From: []core.At{core.After(base)}, Target: mutates, Blocked: core.Is(in)}); ok {
+					o.Fail(p.InstrPos(w), "%s: the key list it appends to was read before this mutation of container.values (stale list)", core.FuncName(f))
+				}
+			}
+		}
+		o.Site(n)
+	})
+
 }
 
 // c15LoadThenWatch decides that f (a closure of reload, or monitor) calls the
